@@ -23,21 +23,25 @@ import (
 )
 
 type table struct {
-	h    tableH
-	dlog func(j int) *big.Int
-	n    int
-	kind string
+	h      tableH
+	dlog   func(j int) *big.Int
+	n      int
+	kind   string
+	id     uint8  // 1 pool, 2 multiples, 3 powers of two
+	letter string // P / T / W in case descriptions
 }
 
 type groupCtx struct {
-	ad   adapter
-	g    *inst.Group
-	m    *model
-	r    *big.Int
-	once sync.Once
-	pool *table
-	mu   sync.Mutex
-	mgen int // generation of the multiples table that was validated
+	ad     adapter
+	g      *inst.Group
+	m      *model
+	r      *big.Int
+	once   sync.Once
+	pool   *table
+	p2once sync.Once
+	pow2   *table
+	mu     sync.Mutex
+	mgen   int // generation of the multiples table that was validated
 }
 
 var (
@@ -122,7 +126,7 @@ func (c *groupCtx) Pool() *table {
 			}
 			ptrs[k] = c.g.FromRef(p)
 		}
-		c.pool = &table{h: c.ad.TableFrom(ptrs), n: K, kind: "pool", dlog: func(j int) *big.Int { return as[j] }}
+		c.pool = &table{h: c.ad.TableFrom(ptrs), n: K, kind: "pool", id: 1, letter: "P", dlog: func(j int) *big.Int { return as[j] }}
 	})
 	return c.pool
 }
@@ -162,18 +166,38 @@ func (c *groupCtx) Multiples(n int) (*table, error) {
 		}
 		c.mgen = gen
 	}
-	return &table{h: h, n: n, kind: "mult", dlog: func(j int) *big.Int { return big.NewInt(int64(j + 1)) }}, nil
+	return &table{h: h, n: n, kind: "mult", id: 2, letter: "T", dlog: func(j int) *big.Int { return big.NewInt(int64(j + 1)) }}, nil
+}
+
+// Pow2 returns the reference-computed table W_e = [2^e]G, e = 0..bits-1 (repeated reference doubling).
+func (c *groupCtx) Pow2() *table {
+	c.p2once.Do(func() {
+		nb := c.m.bits
+		ptrs := make([]interface{}, nb)
+		cur := c.g.Gen
+		for e := 0; e < nb; e++ {
+			if cur.Inf || !c.g.E.OnCurve(cur) {
+				panic("c04: bad power-of-two point")
+			}
+			ptrs[e] = c.g.FromRef(cur)
+			cur = c.g.E.Double(cur)
+		}
+		c.pow2 = &table{h: c.ad.TableFrom(ptrs), n: nb, kind: "pow2", id: 3, letter: "W", dlog: func(j int) *big.Int {
+			return new(big.Int).Lsh(big.NewInt(1), uint(j))
+		}}
+	})
+	return c.pow2
 }
 
 // expected evaluates [Σ sign_i s_i dlog_i mod r] G with the reference.
-func (c *groupCtx) expectedDlog(tb *table, idx []int32, neg []bool, sc []*big.Int) *big.Int {
+func (c *groupCtx) expectedDlog(tableOf func(i int) *table, idx []int32, neg []bool, sc []*big.Int) *big.Int {
 	acc := new(big.Int)
 	tmp := new(big.Int)
 	for i, j := range idx {
 		if j < 0 || sc[i].Sign() == 0 {
 			continue
 		}
-		tmp.Mul(sc[i], tb.dlog(int(j)))
+		tmp.Mul(sc[i], tableOf(i).dlog(int(j)))
 		if neg[i] {
 			acc.Sub(acc, tmp)
 		} else {
